@@ -44,31 +44,31 @@ type Clause struct {
 }
 
 type FuncContract struct {
-	Key      string
-	PkgPath  string // package of the contract file ("" for trusted specs: names are fully qualified)
-	Recv     string
-	Name     string
-	Iface    bool
-	Trusted  bool
-	Pure     bool
-	Inline   bool
-	NoHavoc  bool // "frame none": call does not modify the heap (but result is not a function of args)
+	Key           string
+	PkgPath       string // package of the contract file ("" for trusted specs: names are fully qualified)
+	Recv          string
+	Name          string
+	Iface         bool
+	Trusted       bool
+	Pure          bool
+	Inline        bool
+	NoHavoc       bool // "frame none": call does not modify the heap (but result is not a function of args)
 	PreservesArgs bool // "preserves-args": the callee does not write through pointers reachable from its arguments
-	Clauses  []*Clause
-	File     string
-	Line     int
-	Resolved bool
-	Lets     map[string]*Ex // block-level abbreviations, substituted syntactically
+	Clauses       []*Clause
+	File          string
+	Line          int
+	Resolved      bool
+	Lets          map[string]*Ex // block-level abbreviations, substituted syntactically
 }
 
 type Ghost struct {
-	Name   string
-	Params []BVar
-	Ret    string
-	Body   *Ex
-	Src    string
-	File   string
-	Line   int
+	Name    string
+	Params  []BVar
+	Ret     string
+	Body    *Ex
+	Src     string
+	File    string
+	Line    int
 	PkgPath string
 }
 
@@ -97,11 +97,11 @@ type Lemma struct {
 }
 
 type Contracts struct {
-	Funcs  []*FuncContract
-	Ghosts map[string]*Ghost
+	Funcs      []*FuncContract
+	Ghosts     map[string]*Ghost
 	GhostOrder []string
-	Axioms []*Axiom
-	Lemmas []*Lemma
+	Axioms     []*Axiom
+	Lemmas     []*Lemma
 }
 
 func newContracts() *Contracts { return &Contracts{Ghosts: map[string]*Ghost{}} }
